@@ -7,6 +7,13 @@ import (
 
 // SortedKeys returns the keys of m in a deterministic order (Go randomises map iteration, which
 // would make thread creation order differ between a run and its replay).
+// ZeroValOf returns the zero value of a map's value type (vinst declares the value variable of a rewritten
+// map range with it, in front of the loop).
+func ZeroValOf[K comparable, V any](m map[K]V) V {
+	var z V
+	return z
+}
+
 func SortedKeys[K comparable, V any](m map[K]V) []K {
 	keys := make([]K, 0, len(m))
 	for k := range m {
